@@ -262,6 +262,9 @@ sb_error_t sb_poly_solve(const sb_poly_t* poly, float rhs, float* roots, uint8_t
 
     if (!roots) {
         roots = sb_calloc(float, num_significant_coeffs);
+        if (roots == 0) {
+            return SB_ENOMEM; /* LCOV_EXCL_LINE */
+        }
         roots_allocated = 1;
     }
 
